@@ -178,14 +178,40 @@ def h17_nested(S):
     from repid.data._key import RoutingKey
     import repid.data._parameters as P
 
-    which = S.pick("scenario", 4)
+    which = S.pick("scenario", 6)
     log = []
+    S.tag("scenario", which)
 
     async def main(loop):
         if which == 0:
             mb, ch, srv = fa.mk_broker()
             conn = Connection(mb)
-        elif which >= 2:
+        elif which == 4:
+            # Redis: the consumer's own background fetch dead-letters an expired message (a top-level nack)
+            from fakes import redis as fr
+            from engine import vtime
+            srv = fr.FakeServer(clock=lambda: vtime.current_clock().time())
+            mb = fr.mk_broker(srv)
+            conn = Connection(mb)
+        elif which == 5:
+            # one middleware object handed to two connections through Repid(...)
+            from repid import InMemoryMessageBroker, Repid
+            hears = []
+
+            class MW:
+                async def before_enqueue(self, key):
+                    hears.append(("before_enqueue", key.id_))
+
+            mw = MW()
+            c1, c2 = Connection(InMemoryMessageBroker()), Connection(InMemoryMessageBroker())
+            Repid(c1, middlewares=[mw])
+            Repid(c2, middlewares=[mw])
+            for n, c in (("one", c1), ("two", c2)):
+                await c.message_broker.queue_declare("default")
+                await c.message_broker.enqueue(RoutingKey(topic="job", queue="default", id_=n), "p", None)
+            log.extend(hears)
+            return
+        elif 2 <= which <= 3:
             from repid import InMemoryMessageBroker
             mb = InMemoryMessageBroker()
             conn = Connection(mb)
@@ -207,6 +233,17 @@ def h17_nested(S):
             await mb.requeue(key, "p", P.Parameters(timestamp=P.datetime.now()))
         elif which == 1:
             await Job("job", args={"x": 1}, _connection=conn).enqueue()
+        elif which == 4:
+            key = RoutingKey(topic="job", queue="default", id_="old")
+            await mb.enqueue(key, "p", P.Parameters(timestamp=P.datetime.now() - real_timedelta(hours=2), ttl=real_timedelta(seconds=1)))
+            log.clear()
+            cons = mb.get_consumer("default", ["job"])
+            await cons.start()
+            try:
+                await asyncio.wait_for(cons.consume(), timeout=1)
+            except asyncio.TimeoutError:
+                pass
+            await cons.finish()
         elif which == 2:
             # an operation that fails, handled by the application, then further operations in the same task
             try:
@@ -228,6 +265,10 @@ def h17_nested(S):
     S.cover("nested")
     if which == 0:
         S.check("nested-operations-emit-nothing", log == ["before_requeue", "after_requeue"], info=str(log))
+    elif which == 4:
+        S.check("consumer-side-dead-lettering-is-signalled", [x for x in log if "nack" in x] == ["before_nack", "after_nack"], info=str(log))
+    elif which == 5:
+        S.check("shared-middleware-hears-both-connections", log == [("before_enqueue", "one"), ("before_enqueue", "two")], info=str(log))
     elif which == 2:
         S.check("signals-continue-after-a-failed-operation", log == ["before_enqueue", "before_queue_declare", "after_queue_declare"], info=str(log))
     elif which == 3:
@@ -244,7 +285,7 @@ HARNESSES = [
                     "connections": "one, or a second connection with its own processor alive in the process"},
             functions=["middlewares/wrapper.py:_middleware_wrapper.__call__", "middlewares/middleware.py:Middleware.emit_signal", "connections/abc.py:_WrappedABC.__new__"],
             covers=["performed", "arguments-checked"]),
-    Harness(name="H17-nested", scenario=h17_nested, bounds={"scenarios": "RabbitMQ requeue (ack + publish inside), Job.enqueue with an args bucket, a failed operation followed by another one in the same task, a cancelled consume followed by another operation"},
+    Harness(name="H17-nested", scenario=h17_nested, bounds={"scenarios": "RabbitMQ requeue (ack + publish inside), Job.enqueue with an args bucket, a failed operation followed by another one in the same task, a cancelled consume followed by another operation, a Redis consumer dead-lettering an expired message, one middleware object shared by two connections"},
             covers=["nested"], stubs=["fake AMQP channel"]),
 ]
 ASSUMPTIONS = ["differential oracle: the same operation on an identically prepared connection without subscribers", "selectors are discrete (enumeration)"]
